@@ -347,7 +347,7 @@ def grad_info(gel, bbox, vb, dense, view=None):
                                               (1 if st.attrib.get("offset", "0").endswith("%") else 100))),
                                     st.attrib.get("stop-color", "black")))
     if not stops:
-        return None, []
+        return None, [], []
     bb = a.get("gradientUnits", "objectBoundingBox") == "objectBoundingBox"
 
     def num_(name, dflt_pct, horiz=True):
@@ -366,7 +366,7 @@ def grad_info(gel, bbox, vb, dense, view=None):
     if a.get("gradientTransform"):
         t6 = _tf6(a["gradientTransform"])
         if len(t6) != 6:
-            return "grad:unparsed-transform", []
+            return "grad:unparsed-transform", [], []
         m = _mul(m, tuple(t6))
     inv = _inv(m)
     spread = a.get("spreadMethod", "pad")
@@ -381,8 +381,20 @@ def grad_info(gel, bbox, vb, dense, view=None):
         kind = "radial" if (abs(fx - cx) < 1e-9 and abs(fy - cy) < 1e-9 and fr == 0) else "radialf"
     paint = "grad:%s:%s:%s" % (kind, spread, ",".join(stops))
     grid = []
+    gp = []
+    if tag != "linearGradient" and abs(r) < 1e6:
+        def up(x, y):
+            return (m[0] * x + m[2] * y + m[4], m[1] * x + m[3] * y + m[5])
+        c_, f_ = up(cx, cy), up(fx, fy)
+        gp = [int(math.floor(c_[0] * 64 + 1e-7)), int(math.floor(c_[1] * 64 + 1e-7)),
+              int(math.floor(f_[0] * 64 + 1e-7)), int(math.floor(f_[1] * 64 + 1e-7)),
+              int(math.floor(r * r * (m[0] * m[0] + m[2] * m[2]) * 4 + 1e-7)),
+              int(math.floor(r * r * (m[0] * m[1] + m[2] * m[3]) * 4 + 1e-7)),
+              int(math.floor(r * r * (m[1] * m[1] + m[3] * m[3]) * 4 + 1e-7))]
+        if any(abs(v) > 2 ** 30 for v in gp):
+            gp = []
     if inv is None:
-        return paint, []
+        return paint, [], gp
     if dense:
         pts = [((4 * i + 1) / 8, (4 * j + 2) / 8) for i in range(2 * (vb[0] - 2), 2 * (vb[0] + vb[2] + 2))
                for j in range(2 * (vb[1] - 2), 2 * (vb[1] + vb[3] + 2))]
@@ -404,7 +416,7 @@ def grad_info(gel, bbox, vb, dense, view=None):
             grid.append(-99999)
         else:
             grid.append(int(math.floor(val * 256 + 1e-7)))
-    return paint, grid
+    return paint, grid, gp
 
 
 def project(svg_text, vb=(0, 0, 16, 16), dense=False, view=None):
@@ -453,7 +465,7 @@ def project(svg_text, vb=(0, 0, 16, 16), dense=False, view=None):
                     fill = "unflattened:" + fill
                 xs = [v for pl in polys for v in pl[0::2]] or [0]
                 ys = [v for pl in polys for v in pl[1::2]] or [0]
-                tg = []
+                tg, gp = [], []
                 mu = _URL.match(fill.strip())
                 if mu:
                     gel = grads.get(mu.group(1))
@@ -461,17 +473,17 @@ def project(svg_text, vb=(0, 0, 16, 16), dense=False, view=None):
                         fill = "dangling:" + fill
                     else:
                         fbb = [min(xs) / U64, min(ys) / U64, max(xs) / U64, max(ys) / U64]
-                        fill, tg = grad_info(gel, fbb, vb, dense, view or vb)
+                        fill, tg, gp = grad_info(gel, fbb, vb, dense, view or vb)
                         if fill is None:      # a gradient without stops paints nothing
                             continue
                 layers.append({"polys": polys, "rule": ch.attrib.get("fill-rule", "nonzero"),
                                "pb": [[min(pl[0::2]), min(pl[1::2]), max(pl[0::2]), max(pl[1::2])] for pl in polys],
-                               "paint": fill, "e": e, "grp": grp, "tg": tg,
+                               "paint": fill, "e": e, "grp": grp, "tg": tg, "gp": gp,
                                "bb": [min(xs), min(ys), max(xs), max(ys)]})
             else:
                 notes.append("unexpected element <%s> in output" % t)
                 layers.append({"polys": [], "rule": "nonzero", "paint": "unexpected:" + t, "e": 0,
-                               "grp": grp, "bb": [0, 0, 0, 0], "tg": [], "pb": []})
+                               "grp": grp, "bb": [0, 0, 0, 0], "tg": [], "pb": [], "gp": []})
 
     walk(root, [])
     return {"layers": layers, "notes": notes}
